@@ -110,6 +110,7 @@ Proof.
   destruct (existsb unmodelled_char l); [discriminate|].
   destruct (classify (a_type a)); try discriminate; try (inversion H; reflexivity).
   - destruct (filter _ l); [discriminate|]. inversion H; reflexivity.
+  - destruct (cast_str l); [|discriminate]. inversion H; reflexivity.
   - destruct (existsb _ l); [discriminate|]. destruct (mapM _ _); [|discriminate]. inversion H; reflexivity.
   - destruct (dict_loop _ _ _ _ _ _ _ _); [|discriminate]. inversion H; reflexivity.
   - eapply internal_level; [|exact H]. intros; eapply read_dimen_level; eauto.
